@@ -1862,8 +1862,9 @@ class NoteRestToken(ComplexToken):
         ]
 
         # Deterministic order
+        # stable sort by category only: the duration marks ('4', '.', 'q') must keep their written order
         pitch_duration_tokens_sorted = sorted(
-            pitch_duration_tokens, key=lambda t: (t.category.value, t.encoding)
+            pitch_duration_tokens, key=lambda t: t.category.value
         )
         decoration_tokens_sorted = sorted(
             decoration_tokens, key=lambda t: (t.category.value, t.encoding)
